@@ -1,5 +1,5 @@
 (* Props_C12.v — C12: a probe succeeds only on genuine evidence; indirect probing is routed correctly. *)
-From Foca Require Import Laws MembersM ProbeM FocaM WireM L_Members L_MembersInv Inv L_Wire L_Probe L_RoundEnd L_IndirectStage L_RoundSuspect L_Evidence.
+From Foca Require Import Laws MembersM ProbeM FocaM WireM L_Members L_MembersInv Inv L_Wire L_Probe L_RoundEnd L_IndirectStage L_RoundSuspect L_Evidence L_Abort.
 From Coq Require Import Permutation.
 
 Section C12.
@@ -211,6 +211,53 @@ Theorem C12_round_with_evidence_ends_quietly (rnd : oracle) (f : @foca Id Addr H
   cstd_of es = [] /\ Permutation (inner (mems f')) (inner (mems f)).
 Proof. exact (round_with_evidence_ends_quietly rnd f). Qed.
 
+(* ABORTED ROUNDS ("unless the round was aborted by going idle or changing identity").  An instance that
+   is not Connected has no open round without evidence: this holds for a fresh instance and is kept by every
+   call that is not aborted by an Encode error or a panic, hence along histories; an identity change leaves no
+   open round (and leaves the instance not Connected) whatever the state before.  With
+   C12_evidence_survives_histories and C12_round_with_evidence_ends_quietly: whatever happens between the
+   abort and the first round after reconnecting, that round raises no suspicion about the abandoned target. *)
+Theorem C12_abort_terms (f : @foca Id Addr HO) (r : result) :
+  (Qab f <-> (conn f <> Connected -> ev (prb f)))
+  /\ aborted r = (match r with Failed EEncode => true | Panicked _ => true | _ => false end).
+Proof. split; [split; auto|reflexivity]. Qed.
+
+Theorem C12_fresh_instance_has_no_open_round (id0 : Id) (c0 : config) (h0 : hstate) :
+  Qab (@foca_init Id Addr HO id0 c0 h0).
+Proof. exact (fresh_no_round id0 c0 h0). Qed.
+
+Theorem C12_not_connected_means_no_open_round (rnd : oracle) (f : @foca Id Addr HO) (i : @input Id) :
+  Qab f ->
+  let '(f', _, r, _) := step rnd f i in
+  aborted r = false -> Qab f'.
+Proof. exact (step_no_round_when_idle rnd f i). Qed.
+
+Theorem C12_not_connected_means_no_open_round_along_histories (rnd : oracle) (l : list (@input Id)) (f : @foca Id Addr HO) :
+  Qab f -> no_abort rnd f l -> Qab (run_calls rnd f l).
+Proof. exact (history_no_round_when_idle rnd l f). Qed.
+
+Theorem C12_no_abort_meaning (rnd : oracle) (f : @foca Id Addr HO) (i : @input Id) (l : list (@input Id)) :
+  (no_abort rnd f [] <-> True)
+  /\ (no_abort rnd f (i :: l) <->
+      aborted (snd (fst (step rnd f i))) = false /\ no_abort rnd (fst (fst (fst (step rnd f i)))) l).
+Proof. split; reflexivity. Qed.
+
+Theorem C12_identity_change_abandons_round (rnd : oracle) (f : @foca Id Addr HO) (new : Id) :
+  let '(f', _, r, _) := step rnd f (IChangeIdentity new) in
+  r <> Failed ESameIdentity -> ev (prb f') /\ conn f' <> Connected.
+Proof. exact (identity_change_abandons_round rnd f new). Qed.
+
+Theorem C12_first_round_after_an_abort_is_quiet (rnd : oracle) (l : list (@input Id)) (f : @foca Id Addr HO) :
+  ev (prb f) -> no_live_probe rnd f l ->
+  let g := run_calls rnd f l in
+  conn g = Connected ->
+  let '(g', es, _, _) := step rnd g (ITimer (TProbeRandomMember (token g))) in
+  cstd_of es = [] /\ Permutation (inner (mems g')) (inner (mems g)).
+Proof.
+  intros E NL g Cn. apply (round_with_evidence_ends_quietly rnd g Cn).
+  exact (history_keeps_evidence rnd l f NL E).
+Qed.
+
 End C12.
 
 Print Assumptions C12_direct_evidence.
@@ -236,3 +283,10 @@ Print Assumptions C12_evidence_survives_every_other_call.
 Print Assumptions C12_evidence_survives_histories.
 Print Assumptions C12_history_terms.
 Print Assumptions C12_round_with_evidence_ends_quietly.
+Print Assumptions C12_abort_terms.
+Print Assumptions C12_fresh_instance_has_no_open_round.
+Print Assumptions C12_not_connected_means_no_open_round.
+Print Assumptions C12_not_connected_means_no_open_round_along_histories.
+Print Assumptions C12_no_abort_meaning.
+Print Assumptions C12_identity_change_abandons_round.
+Print Assumptions C12_first_round_after_an_abort_is_quiet.
